@@ -1084,8 +1084,9 @@ mod verif_hooks {
         emit(
             "Insert",
             &format!(
-                "{},\"kind\":\"{kind}\",\"read\":{},\"write\":{}",
+                "{},\"kind\":\"{kind}\",\"prio\":{},\"read\":{},\"write\":{}",
                 id_fields(&job.id),
+                super::priority(&job.id),
                 access_json(&job.read_access),
                 access_json(&job.write_access)
             ),
